@@ -5,12 +5,13 @@ use crate::outcome::{Ctx, Outcome, PropInfo};
 pub mod c01;
 pub mod c02;
 pub mod c03;
+pub mod c06;
 pub mod c08;
 pub mod c09;
 pub mod c13;
 
 pub fn all() -> Vec<&'static PropInfo> {
-    vec![&c01::INFO, &c02::INFO, &c03::INFO, &c08::INFO, &c09::INFO, &c13::INFO]
+    vec![&c01::INFO, &c02::INFO, &c03::INFO, &c06::INFO, &c08::INFO, &c09::INFO, &c13::INFO]
 }
 
 pub fn find(id: &str) -> Option<&'static PropInfo> {
